@@ -531,9 +531,11 @@ def stream_mp(ctx):
         if rng.chance(50) or gi in (0, 4):
             poison = {"exc": rng.choice(sorted(c03_child.LOAD_ERRORS) + ["UnpicklingError"]),
                       "every": rng.range(2, 4), "who": rng.choice(["child", "owner", "both"])}
+        default_context = method in ("fork", "osfork") and (rng.chance(50) or gi == 1)
         try:
             res = c03_child.isolated_run(method, nproc, nthr, k, os.path.join(base, "out.log"),
-                                       child_remove=child_remove, repo=core.REPO, poison=poison)
+                                       child_remove=child_remove, repo=core.REPO, poison=poison,
+                                       default_context=default_context)
         finally:
             shutil.rmtree(base, ignore_errors=True)
         ctx.case(("mp", method, nproc, nthr, k), nontrivial=(nproc >= 2))
@@ -541,9 +543,10 @@ def stream_mp(ctx):
         ctx.stat("mp:child_remove" if child_remove else "mp:child_keeps_handler")
         if poison:
             ctx.stat("mp:unloadable:" + poison["exc"])
+        ctx.stat("mp:default_context" if default_context else "mp:context_given")
         if res["bad"]:
             ctx.violation(res["bad"][0], {"stream": "mp", "method": method, "nproc": nproc, "nthr": nthr, "k": k,
-                                          "child_remove": child_remove, "poison": poison,
+                                          "child_remove": child_remove, "poison": poison, "default_context": default_context,
                                           "violations": res["bad"][:5]})
             break
     ctx.sample({"stream": "mp", "grid": grid[:4]})
@@ -1119,7 +1122,14 @@ def stream_payloads(ctx):
         else:
             if raised:
                 bad.append("logging call %d (exception payload %s) raised %s" % raised[0])
-            want = ["m%d" % i for i in range(len(items)) if not items[i][0].startswith("xload:")]
+            # a record the worker cannot rebuild is reported and skipped (if it does arrive - an implementation that
+            # does not pickle in-process - that is no violation): judged are all the OTHER messages, and the order of all
+            xl = {"m%d" % i for i in range(len(items)) if items[i][0].startswith("xload:")}
+            want = ["m%d" % i for i in range(len(items)) if "m%d" % i not in xl]
+            seq = [int(m[1:]) for m, _ in got]
+            if seq != sorted(set(seq)):
+                bad.append("enqueue handler wrote %r: out of order or twice (payloads %r)" % ([m for m, _ in got], desc))
+            got = [(m, e) for m, e in got if m not in xl]
             if [m for m, _ in got] != want:
                 bad.append("enqueue handler wrote %r for the accepted messages %r (exception payloads %r)%s"
                            % ([m for m, _ in got], want, desc,
@@ -1306,7 +1316,7 @@ def replay(ctx, rep):
         try:
             bad = c03_child.isolated_run(r["method"], r["nproc"], r["nthr"], r["k"], os.path.join(base, "o.log"),
                                        child_remove=r.get("child_remove", True), repo=core.REPO,
-                                       poison=r.get("poison"))["bad"]
+                                       poison=r.get("poison"), default_context=r.get("default_context", False))["bad"]
         finally:
             shutil.rmtree(base, ignore_errors=True)
     elif r.get("stream") == "exit":
